@@ -539,22 +539,38 @@ class Run:
         t0 = time.time()
         with concurrent.futures.ThreadPoolExecutor(max_workers=k) as ex:
             results = [x for part in ex.map(run_part, range(k)) for x in part]
-        cnt = {"ok": 0, "violation": 0, "inconclusive": 0}
+        cnt = {"ok": 0, "violation": 0, "inconclusive": 0, "diverged": 0, "mismatch": 0}
         for x in results:
             cnt[x["verdict"]] += 1
+        # a schedule the real code did not follow (or answered differently) is judged by the property itself:
+        # is the observed history linearizable?  (the hooks only say where the PINNED code's critical sections are)
+        suspects = [x for x in results if x["verdict"] in ("diverged", "mismatch") and x.get("history")]
+        nonlin = 0
+        if suspects:
+            sp = os.path.join(self.scratch, "sched-suspects-%s.ndjson" % cfg)
+            with open(sp, "w") as f:
+                for k, x in enumerate(suspects):
+                    for e in x["history"]:
+                        e["h"] = k + 1
+                        f.write(json.dumps(e, separators=(",", ":")) + "\n")
+            before = len(self.violations)
+            self.lin_validate(sp, "forced schedules the code did not follow (%s)" % cfg)
+            nonlin = len(self.violations) - before
         self.cov["replay_runs"].append({"model": "RegistrySched.tla/" + cfg, "schedules_exported": total, "schedules_replayed": len(results),
-                                        "ok": cnt["ok"], "inconclusive": cnt["inconclusive"], "violations": cnt["violation"],
-                                        "wall_s": round(time.time() - t0, 1)})
+                                        "followed_with_the_models_results": cnt["ok"], "inconclusive": cnt["inconclusive"],
+                                        "diverged": cnt["diverged"], "mismatch": cnt["mismatch"], "of_those_not_linearizable": nonlin,
+                                        "library_crashes": cnt["violation"], "wall_s": round(time.time() - t0, 1)})
         self.cov["traces_validated_against_impl"] += len(results)
         self.cov["evaluations"] += sum(len(json.loads(sc)) for sc in scheds)
         self.cov["distinct_nontrivial"] += len(set(scheds))
         if len(self.cov["samples"]) < 4:
             self.cov["samples"].append({"schedule": json.loads(scheds[0])})
-        log("  replay %-24s %6d of %d schedules forced on real goroutines: ok=%d inconclusive=%d violations=%d (%.1fs)" %
-            (cfg, len(results), total, cnt["ok"], cnt["inconclusive"], cnt["violation"], time.time() - t0))
-        if cnt["inconclusive"]:
-            self.assumptions.append("%d of %d forced schedules of %s were inconclusive on this tree (a goroutine the model lets in did not reach "
-                                    "its gate); they decide nothing, the hook-free histories (B) still do" % (cnt["inconclusive"], len(results), cfg))
+        log("  replay %-24s %6d of %d schedules forced on real goroutines: followed=%d inconclusive=%d diverged=%d mismatch=%d (not linearizable: %d) crashes=%d (%.1fs)" %
+            (cfg, len(results), total, cnt["ok"], cnt["inconclusive"], cnt["diverged"], cnt["mismatch"], nonlin, cnt["violation"], time.time() - t0))
+        if cnt["inconclusive"] or cnt["diverged"] or cnt["mismatch"]:
+            self.assumptions.append("%d inconclusive / %d diverged / %d mismatching forced schedules of %s on this tree: the gate hooks mark the pinned code's critical "
+                                    "sections; such schedules are judged only by the linearizability of what was observed" %
+                                    (cnt["inconclusive"], cnt["diverged"], cnt["mismatch"], cfg))
         for x in results:
             if x["verdict"] == "violation" and len(self.violations) < 5:
                 rp = self.write_replay({"kind": "schedule", "why": x["why"], "step": x["step"], "schedule": x["schedule"]})
